@@ -505,14 +505,24 @@ pub fn parse_choice_text(input: &str) -> Result<ParsedChoiceText, CompilerError>
         });
     }
 
+    let had_space_before_inline_divert = split_inline_divert(trimmed)
+        .and_then(|(text, _)| text.chars().last())
+        .is_some_and(char::is_whitespace);
     let (trimmed, inline_target) = split_inline_choice_divert(trimmed)?;
     let (start_text, start_tags) = split_text_and_tags(trimmed)?;
+    // `* text -> target` on one line: the text keeps the space before the arrow, so that it
+    // runs on into the target's first line (as in the bracketed forms above).
+    let selected_text = if inline_target.is_some() && had_space_before_inline_divert {
+        format!("{start_text} ")
+    } else {
+        start_text.clone()
+    };
     Ok(ParsedChoiceText {
         display_text: start_text.clone(),
         selected_text: if start_text.is_empty() {
             None
         } else {
-            Some(start_text.clone())
+            Some(selected_text)
         },
         start_text: start_text.clone(),
         choice_only_text: String::new(),
